@@ -14,6 +14,7 @@ if TYPE_CHECKING:
     from bqskit.ir.circuit import Circuit
 
 from bqskit.ir.gate import Gate
+from bqskit.ir.gates.composed.frozenparam import FrozenParameterGate
 
 
 class CircuitGate(Gate):
@@ -124,6 +125,9 @@ class CircuitGate(Gate):
                 f'p{i}'
                 for i in range(param_index, param_index + op.num_params)
             ]
+            if isinstance(op.gate, FrozenParameterGate):
+                for idx in sorted(op.gate.frozen_params):
+                    params.insert(idx, str(op.gate.frozen_params[idx]))
             if isinstance(op.gate, CircuitGate):
                 op_id = hash(op.gate)
                 if op_id < 0:
